@@ -182,6 +182,10 @@ func runC06(e *Engine, g G, o RunOpt) RunInfo {
 		}
 		sc.Packets = append(sc.Packets, p)
 	}
+	if g.Pct("ends-with-stream-error", 12) {
+		// the last packet of a session: it is a received packet like any other
+		sc.Packets = append(sc.Packets, c06Pkt{Kind: "other", ID: "se", Raw: "<stream:error><system-shutdown xmlns='" + nsStreams + "'/></stream:error>"})
+	}
 	sc.Seg, sc.LatencyNs = netModes(g, e)
 	sc.Dawdle = g.N("dawdle", 3)
 
@@ -193,6 +197,9 @@ func runC06(e *Engine, g G, o RunOpt) RunInfo {
 	otherType := func(p c06Pkt) string {
 		if strings.HasPrefix(p.Raw, "<a ") {
 			return "stanza.SMAnswer"
+		}
+		if strings.HasPrefix(p.Raw, "<stream:error") {
+			return "stanza.StreamError"
 		}
 		return "stanza.StreamFeatures"
 	}
@@ -269,6 +276,10 @@ func runC06(e *Engine, g G, o RunOpt) RunInfo {
 	replies := map[string][]*Elem{}
 	var otherWrites []string
 	for _, r := range conn.Recv[estItems:] {
+		if r.Item.Kind == ItemClose {
+			// the peer has closed its stream: whatever a routing goroutine still writes is not part of it
+			break
+		}
 		if r.Item.Kind != ItemElem {
 			continue
 		}
@@ -286,6 +297,10 @@ func runC06(e *Engine, g G, o RunOpt) RunInfo {
 		e.Violate("C06", "unexpected-reply", "the router wrote %v although no handler sends anything", otherWrites)
 	}
 	expectReplies := 0
+	endsWithError := len(sc.Packets) > 0 && sc.Packets[len(sc.Packets)-1].ID == "se"
+	if endsWithError {
+		e.Probe("c06.ends_with_stream_error")
+	}
 	wantOther := map[string]int{}
 	gotOther := map[string]int{}
 	for _, h := range hits {
@@ -313,6 +328,11 @@ func runC06(e *Engine, g G, o RunOpt) RunInfo {
 		}
 		rs := replies[p.ID]
 		needReply := want < 0 && p.Kind == "iq" && (p.Type == "get" || p.Type == "set")
+		if needReply && endsWithError && !sc.Component && len(rs) == 0 {
+			// a client routes concurrently: the reply raced with the teardown that the server's
+			// stream error starts, and the server would not read it any more
+			continue
+		}
 		if needReply {
 			expectReplies++
 			if len(rs) != 1 {
